@@ -665,3 +665,17 @@ def completion_problems(res, cfg):
                 out.append(("unwritten", "%d pixel(s) of segment %s still hold the pre-fill pattern at unlink"
                             % (n, name)))
     return out
+
+
+def shrink_hints(labels, values):
+    """Structural candidates for the shrinker: a quieter schedule in one go (all virtual delays / lock picks / speed
+    factors zero), then per half."""
+    sched = [i for i, l in enumerate(labels) if l in ("d", "lockpick", "speed")]
+    if not sched:
+        return
+    for part in (sched, sched[:len(sched) // 2], sched[len(sched) // 2:]):
+        if any(values[i] for i in part):
+            cand = list(values)
+            for i in part:
+                cand[i] = 0
+            yield cand
